@@ -21,7 +21,7 @@ func init() {
 	register(&fw.Spec{
 		ID:    "C14",
 		Level: "exploration",
-		Rule: "case = one genuine simulated session with at least one of CA / PACE-CAM / AA (all curves and suites over the runs) read live, serialised with DocumentEx.ToCbor and verified with verifier.Verify against the same trust store; then every evidence field x value-changing mutations (bit flip low/high, +1, another session's value, other valid point / OID / parameter id, truncation) re-serialised through the public structs, and every data group x sampled byte mutations; " +
+		Rule: "case = one genuine simulated session with at least one of CA / PACE-CAM / AA (all curves and suites over the runs) read live, serialised with DocumentEx.ToCbor and verified with verifier.Verify against the same trust store; then every evidence field x value-changing mutations (bit flip low/high, +1, another session's value, other valid point / OID / parameter id, truncation) re-serialised through the public structs, and every data group x sampled byte mutations; plus ground genuine sessions (genuine oracle only in the quick tier): PACE-CAM and CA with an agreed x-coordinate with 1 / 2 leading zero octets on every curve x suite, chip and terminal ephemeral keys, static keys, mapping secret, chip authentication data, nonce and private scalars with leading zero octets (chip grinding, personalisation grinding, steering of the terminal's key draws), AA with every pooled RSA modulus size 1024..4096 (incl. sizes not divisible by 8) x every hash, ECDSA on every curve plain and DER, signature components shorter than the modulus / order; " +
 			"oracle: live and offline agree on PA, completeness and each mechanism that ran; genuine evidence verifies; a single-field change leaves the corresponding verdict not successful; a changed data group makes PA fail; non-trivial = every verification; distinct = (session, field, mutation)",
 		MinEvaluations: 500,
 		Assumptions: []string{
@@ -39,10 +39,15 @@ type c14Session struct {
 	card  *chipsim.Card
 }
 
-func c14Live(k *fw.K, p *perso.Perso, pp persoPlan, seed uint64, label string) *c14Session {
+// prep (optional) configures the fresh chip (grinding options) and may interpose on the
+// terminal's randomness before the session starts.
+func c14Live(k *fw.K, p *perso.Perso, pp persoPlan, seed uint64, label string, prep func(card *chipsim.Card)) *c14Session {
 	fw.SeedCryptoRand(int64(seed), label)
 	card := p.NewCard(seed)
 	card.Extended = true
+	if prep != nil {
+		prep(card)
+	}
 	res := liveRead(p, card, liveOpts{maxLe: pp.maxLe}, nil)
 	if res.err != nil || res.docEx == nil {
 		k.Count("live_read_failed")
@@ -313,8 +318,9 @@ func c14Case(c *fw.Ctx, k *fw.K, i int) {
 		}
 		o.AA = perso.AAOpts{}
 	case 2:
-		o.AA = perso.AAOpts{Kind: 1, Bits: []int{1024, 1536, 2048}[(i/4)%3], Hash: 0}
-		o.AA.Hash = 0
+		// every modulus size of the key pool (up to 4096 bits, incl. sizes that are not a
+		// multiple of 8) x every ISO 9796-2 hash
+		o.AA = perso.AAOpts{Kind: 1, Bits: c14RSABits[(i/4)%len(c14RSABits)], Hash: chipsim.AAHash((i/4 + i/240) % 5)}
 	case 3:
 		o.AA = perso.AAOpts{Kind: 2, Curve: (i / 4) % 11, DER: (i/44)%2 == 1}
 	}
@@ -323,15 +329,68 @@ func c14Case(c *fw.Ctx, k *fw.K, i int) {
 		o.DG2Size = 0
 	}
 	p := perso.Build(r, *o)
-	s1 := c14Live(k, p, pp, uint64(i)*2+1, fmt.Sprintf("c14/%d/a", i))
+	s1 := c14Live(k, p, pp, uint64(i)*2+1, fmt.Sprintf("c14/%d/a", i), nil)
 	if s1 == nil {
 		return
 	}
-	s2 := c14Live(k, p, pp, uint64(i)*2+2, fmt.Sprintf("c14/%d/b", i))
+	s2 := c14Live(k, p, pp, uint64(i)*2+2, fmt.Sprintf("c14/%d/b", i), nil)
+	c14Judge(c, k, fmt.Sprint(i), pp, p, s1, s2, c14JudgeOpts{fields: true, dgs: true, sample: i%8 == 0})
+}
+
+type c14JudgeOpts struct {
+	fields, dgs bool   // run the evidence-field / data-group mutations
+	sample      bool   // keep the genuine case as an evidence sample
+	class       string // edge class of a ground session ("" for drawn sessions): part of the violation key ...
+	classMech   string // ... of this mechanism (CA, CAM, AA)
+}
+
+// c14Tag names the corner a genuine session is in, for violation keys: a shared secret with
+// leading zero octets as seen by the chip (whatever the session was ground for), else the
+// class the session was ground for when that class concerns this mechanism, else (AA) the
+// key kind.
+func c14Tag(s *c14Session, pp persoPlan, mech string, jo c14JudgeOpts) string {
+	switch mech {
+	case "CAM":
+		if s.card.PACE != nil && s.card.PACE.SharedXLeading > 0 {
+			return ":shared-x-leading-zero"
+		}
+	case "CA":
+		if s.card.CA != nil && len(s.card.CA.K) > 0 && s.card.CA.K[0] == 0 {
+			return ":shared-x-leading-zero"
+		}
+	}
+	if jo.class != "" && jo.classMech == mech {
+		return ":" + jo.class
+	}
+	if mech == "AA" {
+		switch aa := pp.o.AA; aa.Kind {
+		case 1:
+			return fmt.Sprintf(":rsa-%d", aa.Bits)
+		case 2:
+			form := "plain"
+			if aa.DER {
+				form = "der"
+			}
+			return ":ecdsa-" + ecref.All()[aa.Curve].Name + "-" + form
+		}
+	}
+	return ""
+}
+
+// c14Judge verifies the export of the genuine session s1 offline and compares the verdicts
+// with the live ones; then (optionally) the single-field and data-group mutations. id is
+// unique per case (distinctness of evaluations), s2 (may be nil) a second session with the
+// same chip that donates "other session" values.
+func c14Judge(c *fw.Ctx, k *fw.K, id string, pp persoPlan, p *perso.Perso, s1, s2 *c14Session, jo c14JudgeOpts) {
+	o := &pp.o
+	r := k.RNG
 	pool := trustPool(p.Trust)
-	k.Nontrivial(pp.String())
+	k.Nontrivial(pp.String() + "|" + jo.class + "|" + id)
 	det := func(extra map[string]any) map[string]any {
 		m := map[string]any{"plan": pp.String(), "zone": p.Zone}
+		if jo.class != "" {
+			m["edge_class"] = jo.class
+		}
 		for kk, v := range extra {
 			m[kk] = v
 		}
@@ -358,12 +417,16 @@ func c14Case(c *fw.Ctx, k *fw.K, i int) {
 		if mechOK(live, m) {
 			ran++
 			k.Count("genuine_sessions_with_" + m)
+			c14CountSizes(k, live, m)
+			if tag := c14Tag(s1, pp, m, c14JudgeOpts{}); tag != "" && m != "AA" {
+				k.Count("genuine_sessions_with_" + m + "_" + tag[1:])
+			}
 			if !mechOK(off, m) {
-				k.Violation("offline:genuine-evidence-rejected:"+m, fmt.Sprintf("%s succeeded live but its captured evidence does not verify offline: ca=%v cam/pace=%v aa=%v", m, off.Session.ChipAuthErr, off.Session.PaceErr, off.Session.ActiveAuthErr), det(nil))
+				k.Violation("offline:genuine-evidence-rejected:"+m+c14Tag(s1, pp, m, jo), fmt.Sprintf("%s succeeded live but its captured evidence does not verify offline: ca=%v cam/pace=%v aa=%v", m, off.Session.ChipAuthErr, off.Session.PaceErr, off.Session.ActiveAuthErr), det(nil))
 				return
 			}
 		} else if mechOK(off, m) {
-			k.Violation("offline:verdict-without-live-success:"+m, fmt.Sprintf("%s is successful offline although it did not succeed live", m), det(nil))
+			k.Violation("offline:verdict-without-live-success:"+m+c14Tag(s1, pp, m, jo), fmt.Sprintf("%s is successful offline although it did not succeed live", m), det(nil))
 			return
 		}
 	}
@@ -374,7 +437,7 @@ func c14Case(c *fw.Ctx, k *fw.K, i int) {
 	if ran == 0 {
 		k.Count("sessions_without_mechanism")
 	}
-	if i%8 == 0 {
+	if jo.sample {
 		k.Sample("genuine", map[string]any{"plan": pp.String(), "blob_bytes": len(s1.blob), "chip_authenticity": off.Summary().ChipAuthenticity.String()})
 	}
 	// --- evidence field mutations
@@ -413,7 +476,7 @@ func c14Case(c *fw.Ctx, k *fw.K, i int) {
 		}
 	}
 	for _, mu := range muts {
-		if !mechOK(live, mu.mech) {
+		if !jo.fields || !mechOK(live, mu.mech) {
 			continue
 		}
 		d := c14Clone(s1.blob)
@@ -426,7 +489,7 @@ func c14Case(c *fw.Ctx, k *fw.K, i int) {
 			continue
 		}
 		k.AddEvals(1)
-		k.Distinct(fmt.Sprintf("%d|%s|%s|%s", i, mu.mech, mu.field, mu.kind))
+		k.Distinct(fmt.Sprintf("%s|%s|%s|%s", id, mu.mech, mu.field, mu.kind))
 		res, err := verifier.NewVerifier(pool).Verify(blob)
 		if err != nil || res == nil || !mechOK(res, mu.mech) {
 			k.Count("mutation_detected_" + mu.mech + "_" + mu.field)
@@ -435,7 +498,7 @@ func c14Case(c *fw.Ctx, k *fw.K, i int) {
 		k.Violation(fmt.Sprintf("offline:tamper-undetected:%s:%s:%s", mu.mech, mu.field, mu.kind), fmt.Sprintf("%s evidence field %s changed (%s) but the %s verdict is still successful", mu.mech, mu.field, mu.kind, mu.mech), det(map[string]any{"field": mu.field, "mutation": mu.kind}))
 	}
 	// --- data group byte mutations: PA must fail
-	if mechOK(live, "PA") {
+	if jo.dgs && mechOK(live, "PA") {
 		for _, n := range supportedDGs {
 			name := fmt.Sprintf("DG%d", n)
 			raw := docFile(&live.Document, name)
@@ -458,7 +521,7 @@ func c14Case(c *fw.Ctx, k *fw.K, i int) {
 					continue
 				}
 				k.AddEvals(1)
-				k.Distinct(fmt.Sprintf("%d|dg%d|%d", i, n, pos))
+				k.Distinct(fmt.Sprintf("%s|dg%d|%d", id, n, pos))
 				res, err := verifier.NewVerifier(pool).Verify(blob)
 				if err != nil || res == nil || !mechOK(res, "PA") {
 					k.Count("dg_mutation_detected")
@@ -503,4 +566,7 @@ func runC14(c *fw.Ctx) {
 	}
 	n := c.Pick(120, 6000)
 	c.Cases(n, func(i int) string { return fmt.Sprintf("session|i=%d", i) }, func(i int, k *fw.K) { c14Case(c, k, i) })
+	// ground genuine sessions: leading-zero secrets / coordinates / scalars, largest keys
+	edges := c14EdgePlan(c)
+	c.Cases(len(edges), func(i int) string { return "edge|" + edges[i].String() }, func(i int, k *fw.K) { c14EdgeCase(c, k, i, edges[i]) })
 }
